@@ -252,6 +252,41 @@ func capacityOracle(r *vlib.Run) {
 	}
 }
 
+// resetThenFillOracle: implementation-only. K live entries, a backwards clock jump (everything
+// is discarded), then more fresh values than capacity-K on a monotone clock within the TTL:
+// still below capacity, so nothing may be force-evicted — every value inserted after the jump is
+// still remembered and the filter holds exactly those.
+func resetThenFillOracle(r *vlib.Run) {
+	const k = 60000
+	f, _ := replayfilter.New(3 * time.Hour)
+	now := base.Add(time.Hour)
+	for i := 0; i < k; i++ {
+		now = now.Add(time.Nanosecond)
+		f.TestAndSet(now, valBytes(i))
+	}
+	now = base // jump back behind the oldest entry
+	for i := 0; i < k; i++ {
+		now = now.Add(time.Nanosecond)
+		if f.TestAndSet(now, valBytes(1000000+i)) {
+			r.Violate("fresh-value-reported-seen", "impl-oracle", fmt.Sprintf("fresh value %d after a backwards jump reported as seen", i), map[string]interface{}{"resetThenFill": true})
+			return
+		}
+	}
+	r.Case("reset-then-fill-oracle", true)
+	r.Count("class", "reset-then-fill-oracle")
+	if m, l := replayfilter.VerifLen(f); m != k || l != k {
+		r.Violate("entries-evicted-below-capacity", "impl-oracle", fmt.Sprintf("%d values, a backwards clock jump, then %d fresh values within the TTL (below capacity): the filter holds map=%d fifo=%d entries, expected %d", k, k, m, l, k), map[string]interface{}{"resetThenFill": true})
+		return
+	}
+	now = now.Add(time.Nanosecond)
+	if !f.TestAndSet(now, valBytes(1000000)) {
+		r.Violate("entries-evicted-below-capacity", "impl-oracle", "the first value inserted after the backwards jump was forgotten although the filter is below capacity and within the TTL", map[string]interface{}{"resetThenFill": true})
+	}
+	if f.TestAndSet(now, valBytes(5)) {
+		r.Violate("backwards-jump-did-not-discard", "impl-oracle", "a value inserted before the backwards jump is still remembered", map[string]interface{}{"resetThenFill": true})
+	}
+}
+
 func main() {
 	r := vlib.NewRun("C11")
 	r.Rule = "history = list of (time step, value); exhaustive over all histories up to the tier's length over 3 values x time steps {-2,0,1,ttl-1,ttl} (ttl=4), then random long histories incl. negative steps; non-trivial = a value repeats AND (an expiry/reset made a repeat 'new' OR a backwards step occurs); distinct by canonical op line"
@@ -267,6 +302,8 @@ func main() {
 			concurrent(r, 2000)
 		} else if raw["capacityOracle"] == true {
 			capacityOracle(r)
+		} else if raw["resetThenFill"] == true {
+			resetThenFillOracle(r)
 		} else if raw["capacity"] == true {
 			capacity(r, d)
 		} else if err := r.LoadReplay(&c); err == nil {
@@ -304,6 +341,7 @@ func main() {
 	}
 	concurrent(r, r.Scale(200, 5000))
 	capacityOracle(r)
+	resetThenFillOracle(r)
 	if r.Thorough() {
 		capacity(r, d)
 	}
